@@ -11,7 +11,9 @@ func (g *Grammar) Nullable() []bool {
 		switch e.Kind {
 		case KRef:
 			return e.T == "EOF" // a reference to EOF matches at the end of input without consuming
-		case KLit, KNeg, KPars:
+		case KLit:
+			return e.S == "" && e.T == "" // the empty untyped literal matches the EOF token without consuming
+		case KNeg, KPars:
 			return false
 		case KLook:
 			return true
@@ -155,7 +157,9 @@ func exprNullWith(g *Grammar, null []bool, e *Expr) bool {
 	switch e.Kind {
 	case KRef:
 		return e.T == "EOF"
-	case KLit, KNeg, KPars:
+	case KLit:
+		return e.S == "" && e.T == ""
+	case KNeg, KPars:
 		return false
 	case KLook:
 		return true
@@ -285,7 +289,11 @@ func GenRecSystem(t *rapid.T) (*Grammar, map[string]bool) {
 			}
 			return SubU(u)
 		}
-		switch rapid.IntRange(0, 9).Draw(t, "np") {
+		switch rapid.IntRange(0, 10).Draw(t, "np") {
+		case 10:
+			// the empty literal: takes any token, and at the end of the input the EOF token without consuming it
+			used["after_empty_literal"] = true
+			return Lit("")
 		case 8, 9:
 			// the optional part sits inside the capture: @( x? ), @( x* )
 			used["after_capture_of_optional"] = true
